@@ -27,7 +27,8 @@
 //!   The part after `| close` is what happened after the harness finally closed the connection (`X256`): every call
 //!   must have completed by then.
 //!   `panic <location> <message> @ev<k> | <calls so far>` when any h3 call panicked; `livelock` when the executor did
-//!   not reach quiescence.
+//!   not reach quiescence.  A call that never returns (spin inside one poll) trips the watchdog
+//!   (`C06_CASE_TIMEOUT_S`, default 300): the process exits with code 3 and the check reports `crash` for that case.
 use bytes::{Buf, Bytes};
 use h3v::simquic::*;
 use h3v::unhex;
@@ -529,60 +530,93 @@ fn run_case(role: &str, o: Opts, evs: &[&str], log: &Log, progress: &RefCell<usi
     format!("ok {} | close {}", first, second)
 }
 
-fn main() {
-    let mut hook_set = false;
-    h3v::run_lines(|ws| {
-        if !hook_set {
-            hook_set = true;
-            std::panic::set_hook(Box::new(|info| {
-                let loc = info
-                    .location()
-                    .map(|l| {
-                        // keep the last three path components (crate/src/file.rs or src/dir/file.rs)
-                        let parts: Vec<&str> = l.file().split('/').collect();
-                        let k = parts.len().saturating_sub(3);
-                        format!("{}:{}", parts[k..].join("/"), l.line())
-                    })
-                    .unwrap_or_else(|| "?".into());
-                if let Ok(mut g) = PANIC_LOC.lock() {
-                    *g = loc;
-                }
-            }));
-        }
-        match ws {
-            ["run", role, opts, script] | ["run", role, opts, script, _] => {
-                let o = match parse_opts(opts) {
-                    Some(o) => o,
-                    None => return "driver-error bad-opts".into(),
-                };
-                let evs: Vec<&str> = if *script == "-" { vec![] } else { script.split(',').collect() };
-                let log = Log::default();
-                let progress = RefCell::new(0usize);
-                let r = catch_unwind(AssertUnwindSafe(|| run_case(role, o, &evs, &log, &progress)));
-                match r {
-                    Ok(s) => s,
-                    Err(e) => {
-                        let msg = if let Some(s) = e.downcast_ref::<&str>() {
-                            s.to_string()
-                        } else if let Some(s) = e.downcast_ref::<String>() {
-                            s.clone()
-                        } else {
-                            "?".to_string()
-                        };
-                        let loc = PANIC_LOC.lock().map(|g| g.clone()).unwrap_or_default();
-                        let msg: String = msg.replace('\n', " ").chars().take(120).collect();
-                        format!(
-                            "panic {} {} @ev{} | calls={} pend={}",
-                            loc,
-                            msg.replace(' ', "_"),
-                            progress.borrow(),
-                            log.take_calls(),
-                            log.pending()
-                        )
-                    }
+/// One case line -> one result line.
+fn handle(ws: &[&str]) -> String {
+    match ws {
+        ["run", role, opts, script] | ["run", role, opts, script, _] => {
+            let o = match parse_opts(opts) {
+                Some(o) => o,
+                None => return "driver-error bad-opts".into(),
+            };
+            let evs: Vec<&str> = if *script == "-" { vec![] } else { script.split(',').collect() };
+            let log = Log::default();
+            let progress = RefCell::new(0usize);
+            let r = catch_unwind(AssertUnwindSafe(|| run_case(role, o, &evs, &log, &progress)));
+            match r {
+                Ok(s) => s,
+                Err(e) => {
+                    let msg = if let Some(s) = e.downcast_ref::<&str>() {
+                        s.to_string()
+                    } else if let Some(s) = e.downcast_ref::<String>() {
+                        s.clone()
+                    } else {
+                        "?".to_string()
+                    };
+                    let loc = PANIC_LOC.lock().map(|g| g.clone()).unwrap_or_default();
+                    let msg: String = msg.replace('\n', " ").chars().take(120).collect();
+                    format!(
+                        "panic {} {} @ev{} | calls={} pend={}",
+                        loc,
+                        msg.replace(' ', "_"),
+                        progress.borrow(),
+                        log.take_calls(),
+                        log.pending()
+                    )
                 }
             }
-            _ => "driver-error unknown-case".into(),
+        }
+        _ => "driver-error unknown-case".into(),
+    }
+}
+
+/// (start of the case being run, its text); None while idle
+static CURRENT: Mutex<Option<(std::time::Instant, String)>> = Mutex::new(None);
+
+fn main() {
+    use std::io::{BufRead, Write};
+    std::panic::set_hook(Box::new(|info| {
+        let loc = info
+            .location()
+            .map(|l| {
+                // keep the last three path components (crate/src/file.rs or src/dir/file.rs)
+                let parts: Vec<&str> = l.file().split('/').collect();
+                let k = parts.len().saturating_sub(3);
+                format!("{}:{}", parts[k..].join("/"), l.line())
+            })
+            .unwrap_or_else(|| "?".into());
+        if let Ok(mut g) = PANIC_LOC.lock() {
+            *g = loc;
+        }
+    }));
+    // watchdog: a single h3 call that never returns (a spin inside one poll) cannot be observed by the executor;
+    // the process is killed and the check reports `crash` for exactly that case (every earlier line is flushed)
+    let limit: u64 = std::env::var("C06_CASE_TIMEOUT_S").ok().and_then(|v| v.parse().ok()).unwrap_or(300);
+    std::thread::spawn(move || loop {
+        std::thread::sleep(std::time::Duration::from_millis(500));
+        if let Ok(g) = CURRENT.lock() {
+            if let Some((t0, case)) = g.as_ref() {
+                if t0.elapsed().as_secs() >= limit {
+                    let c: String = case.chars().take(160).collect();
+                    eprintln!("watchdog: an h3 call did not return within {}s (spin inside one poll) in: {}", limit, c);
+                    std::process::exit(3);
+                }
+            }
         }
     });
+    let stdin = std::io::stdin();
+    let stdout = std::io::stdout();
+    for line in stdin.lock().lines() {
+        let line = line.expect("stdin");
+        let ws: Vec<&str> = line.split_whitespace().collect();
+        if let Ok(mut g) = CURRENT.lock() {
+            *g = Some((std::time::Instant::now(), line.clone()));
+        }
+        let r = handle(&ws);
+        if let Ok(mut g) = CURRENT.lock() {
+            *g = None;
+        }
+        let mut out = stdout.lock();
+        writeln!(out, "{}", r).unwrap();
+        out.flush().unwrap();
+    }
 }
